@@ -11,6 +11,7 @@ import (
 	"fmt"
 	golog "log"
 	"net"
+	"runtime"
 	"sync"
 	"sync/atomic"
 	"testing"
@@ -413,4 +414,66 @@ func TestVerif_C09_handoff(t *testing.T) {
 			break
 		}
 	}
+}
+
+// A stop request (or a closed input) that arrives before the freshly started workers have been
+// scheduled: the pipeline must still wind down in an orderly way - HandleRegUpdates returns only
+// after every worker has finished, nothing panics afterwards.
+func TestVerif_C09_earlystop(t *testing.T) {
+	rec := vh.NewRec("C09", "earlystop", "HandleRegUpdates started with 2-300 workers under an already cancelled context, a context cancelled right after the start, or an already closed input channel, 60 (thorough: 600) times; oracle: it returns within 20 s, no worker is still running or panics afterwards (a panic in a worker goroutine kills the process and is reported as a crash); non-trivial = every round; distinct by round")
+	defer rec.Flush()
+	if vh.ReplayFile() != "" {
+		t.Skip("scheduling-dependent; re-run the quick tier")
+	}
+	e := vNewEnv(t, nil, "")
+	rounds := vh.Pick(60, 600)
+	_, shards := vh.Shard()
+	rounds = (rounds + shards - 1) / shards
+	for r := 0; r < rounds; r++ {
+		e.resetRegistry()
+		rm := *e.rm
+		conf := *e.rm.RegConfig
+		conf.IngestWorkerCount = []int{2, 10, 37, 300}[r%4]
+		rm.RegConfig = &conf
+		rm.RegistrationStats = newRegistrationStats()
+		rm.Logger = log.New(discardWriter{}, "", golog.Lmsgprefix)
+		rm.LivenessTester = &vTester{}
+		in := make(chan interface{}, 4)
+		ctx, cancel := context.WithCancel(context.Background())
+		mode := []string{"cancelled-before-start", "cancelled-right-after-start", "input-closed-before-start"}[(r/4)%3]
+		switch mode {
+		case "cancelled-before-start":
+			cancel()
+		case "input-closed-before-start":
+			in <- c09Msg(r)
+			close(in)
+		}
+		var wg sync.WaitGroup
+		wg.Add(1)
+		returned := make(chan struct{})
+		go func() { rm.HandleRegUpdates(ctx, in, &wg); close(returned) }()
+		if mode == "cancelled-right-after-start" {
+			cancel()
+		}
+		if mode == "input-closed-before-start" {
+			// the distributor leaves its loop when the input is closed and then waits for the workers,
+			// which stop at the stop request
+			time.Sleep(200 * time.Microsecond)
+			cancel()
+		}
+		select {
+		case <-returned:
+		case <-time.After(20 * time.Second):
+			cancel()
+			rec.Case(true, vh.Digest(fmt.Sprintf("%d-%d", vh.Seed(), r)), map[string]any{"round": r, "mode": mode}, "mode:"+mode)
+			rec.Violation(t, "stall:shutdown", map[string]any{"mode": mode, "workers": conf.IngestWorkerCount}, "HandleRegUpdates (%d workers, %s) did not return within 20 s", conf.IngestWorkerCount, mode)
+			return
+		}
+		cancel()
+		// give late workers (if the pipeline did not wait for them) the chance to run
+		time.Sleep(300 * time.Microsecond)
+		runtime.Gosched()
+		rec.Case(true, vh.Digest(fmt.Sprintf("%d-%d", vh.Seed(), r)), map[string]any{"round": r, "mode": mode, "workers": conf.IngestWorkerCount}, "mode:"+mode)
+	}
+	time.Sleep(20 * time.Millisecond)
 }
